@@ -567,7 +567,10 @@ pub fn run_probe_property<H: HB>(prop: &'static str, tier: Tier) -> Outcome {
             (_, false) => vec![40, 64, 65, 100, 127, 128, 129, 256, 257],
         };
         for n in sizes {
-            let depth = if matches!(prop, "C06" | "C16") && n <= if q { 40 } else { 65 } { 1 } else { 0 };
+            // (C16: the emptied-like-fresh probe runs depth-2 continuations after every drain pattern, so
+            // it is attached to the seeds themselves; the drain / clear transitions are judged at depth 1
+            // by a separate run without the probe)
+            let depth = if prop == "C06" && n <= if q { 40 } else { 65 } { 1 } else { 0 };
             let mut c = seeds_cfg(prop, n, &rel_large(n), A_REACH | match prop {
                 "C16" => A_CLEAR_DRAIN | A_DRAIN_FORGET,
                 "C06" if !q => A_RETAIN | A_ITER_MUT | A_EXTEND | A_APPEND,
@@ -588,6 +591,12 @@ pub fn run_probe_property<H: HB>(prop: &'static str, tier: Tier) -> Outcome {
             run_seeds::<H>(&mut out, &format!("E2-large F_large({n}) depth {depth}: programs (structured family) from every state"), &c, f_large(n), depth, &mk);
             if !out.violations.is_empty() {
                 return out;
+            }
+            if prop == "C16" {
+                run_seeds::<H>(&mut out, &format!("E2-large F_large({n}) depth 1: clear / drain (structured patterns, dropped or leaked) and the other operations as transitions"), &c, f_large(n), 1, &no_probes);
+                if !out.violations.is_empty() {
+                    return out;
+                }
             }
         }
     }
